@@ -1,4 +1,4 @@
-\* repaired protocol, 1 connection x 2 callers: every property holds
+\* repaired protocol = the code as it is now (all Fix* = TRUE), 1 connection x 2 callers: every property holds
 CONSTANTS
   NC = 1
   Waiters = {w1, w2}
